@@ -363,8 +363,8 @@ def build_cases(ctx):
     a_cases = [('a', L, a, q, k) for L in A_L for a in A_A for q in A_Q for k in A_K]
     b_cases = [('b', t) for t in itertools.product(V, repeat=3)]
     if ctx.quick:
-        # quick: all transients; V-triples whose middle value lies in a seed-rotated third of V
-        mids = set(ctx.rotate(V, 8))
+        # quick: all transients; V-triples whose middle value is +-0, 1 or one of 6 seed-rotated other values
+        mids = set([0.0, 1.0] + ctx.rotate([v for v in V if v not in (0.0, 1.0)], 6))   # 0.0 == -0.0
         b_cases = [c for c in b_cases if c[1][1] in mids]
     # arrays: the (b) triples in a fixed stride order (so neighbours differ in zone), cut into
     # consecutive groups of 5 and of 6; every triple also as a 0-d and as a (1,) array
@@ -437,7 +437,7 @@ def run(ctx):
         '1). Non-trivial: (a) outside the guards, resolved, and 10R + A <= 1e-3 * min(|t1-L|, |t2-L|); (b) outside '
         'the guards and 10 R <= 1e-3 |S - e2| (the check tells the extrapolated value from the last term); (c) '
         'size-1 arrays, or arrays whose elements do not all lie in one guard zone.'
-        % (len(a_cases), ('all %d' % len(b_cases)) if not ctx.quick else ('%d (middle value in a seed-rotated third of V) of the 13824'
+        % (len(a_cases), ('all %d' % len(b_cases)) if not ctx.quick else ('%d (middle value +-0, 1 or one of 6 seed-rotated values of V) of the 13824'
                                                                          % len(b_cases)), len(V), len(arr)))
     return fw.finish(ctx, acc, LEVEL, rule, exhaustive=True, required_cells=req,
                      assumptions=['IEEE binary64 round-to-nearest; Fraction(float) and float(Fraction) are exact / '
